@@ -1,16 +1,18 @@
 #!/usr/bin/env python3
 """tools/mutate.py <repo-relative-file> <old-literal> <new-literal> <check args...>
 Self-test helper (not a registered check): applies one literal replacement to /repo's working tree, runs ./check, restores the file."""
-import subprocess, sys, os
+import subprocess, sys, os, shutil, tempfile
 f, old, new = sys.argv[1:4]
 p = os.path.join('/repo', f)
 s = open(p).read()
 n = s.count(old)
 if n != 1:
     print('mutate: %d occurrences of %r' % (n, old)); sys.exit(3)
+bk = tempfile.mkdtemp(prefix='evbk.', dir='/tmp'); shutil.copytree('/verif/evidence', bk + '/e')
 open(p, 'w').write(s.replace(old, new))
 try:
     r = subprocess.run(['/verif/check'] + sys.argv[4:], capture_output=True, text=True)
     print(r.stdout[-3000:]); print('rc=%d' % r.returncode)
 finally:
     open(p, 'w').write(s)
+    shutil.rmtree('/verif/evidence'); shutil.copytree(bk + '/e', '/verif/evidence'); shutil.rmtree(bk)   # evidence never records a mutated tree
